@@ -94,3 +94,19 @@ func SpecEqualFold(a, b string) bool { panic("abstract spec function") }
 //@     invariant copying: 0 - 1 <= rangeindex && rangeindex < len(args) && len(strArgs) == rangeindex + 1 && fresh(strArgs)
 //@   loop 2:
 //@     invariant positions_so_far: fresh(indexes) && 0 <= firstkey && firstkey <= lastkey + cmdPos.step && 0 <= lastkey && lastkey < len(args) && cmdPos.step > 0 && cmdPos.step <= 8 && (forall i int :: 0 <= i && i < len(indexes) ==> 0 <= indexes[i] && indexes[i] < len(args))
+
+// ---- XREADGROUP GROUP group consumer [COUNT n] [BLOCK ms] [NOACK] STREAMS key ... id ... (C18, C10) ----
+// xreadGetKeys walks the options: GROUP is followed by two names, COUNT and BLOCK by one value; a
+// group or consumer called "streams" is a name, not the keyword.
+//@ axiom group_is_not_streams: forall s string :: !(SpecEqualFold(s, "group") && SpecEqualFold(s, "streams"))
+//@ func streamsExtractor
+//@   arith int
+//@   properties C18 C10
+//@   replay syncer_xreadgroupStreams@syncer
+//@   modifies nothing
+//@   ensures the_names_after_group_are_never_taken_for_the_keyword: result != nil && len(args) >= 3 && SpecEqualFold(args[0], "group") ==> result[0] >= 4
+//@   ensures every_reported_position_is_an_argument: result != nil ==> len(result) >= 1 && (forall i int :: 0 <= i && i < len(result) ==> 1 <= result[i] && result[i] < len(args))
+//@   loop 1:
+//@     invariant walk: 0 <= i && marker >= 0 - 1 && marker < len(args) && (marker >= 0 ==> marker < i) && (len(args) >= 3 && SpecEqualFold(args[0], "group") ==> (i == 0 && marker == 0 - 1) || (i >= 3 && (marker == 0 - 1 || marker >= 3)))
+//@   loop 2:
+//@     invariant keys_so_far: fresh(keys) && keyStart == marker + 1 && marker >= 0 && idx >= keyStart && idx <= keyStart + keyCount && keyStart + keyCount <= len(args) && len(keys) == idx - keyStart && (forall j int :: 0 <= j && j < len(keys) ==> keys[j] == keyStart + j)
